@@ -21,7 +21,8 @@ structure Sess where
 
 def nslot : Nat := 4
 def predEven (v : Nat) : Bool := v % 2 == 0
-def cp1000 (v : Nat) : Nat := v + 1000
+/-- the harness copy function `(void*)((uintptr_t)e + 1000)`: pointer arithmetic wraps at 2^64 -/
+def cp1000 (v : Nat) : Nat := (v + 1000) % 2 ^ 64
 def eqvMod10 (a b : Nat) : Bool := a % 10 == b % 10
 
 def getM (s : Sess) (k : Nat) : Option Deque := (s.models[k]?).join
